@@ -16,6 +16,7 @@ TIER_SIZES = {
     "adv": (32, 240),
     "perm": (24, 200),
     "join": (40, 300),      # join-heavy workflows, fractional transfer waits
+    "b2b": (16, 160),       # sub-array observations starting exactly when others finish
     "tier": (20, 160),      # hot buffer beyond its tiering threshold (known findings live here)
     "overlap": (8, 40),
 }
@@ -39,6 +40,9 @@ def jobs(tier, seed):
     rng = random.Random(f"join-{seed}")
     for i in range(TIER_SIZES["join"][idx]):
         out.append(("join", gen.random_cfg(rng, alg=["queue", "batch", "plan", "greedy"][i % 4], family="join"), {}))
+    rng = random.Random(f"b2b-{seed}")
+    for i in range(TIER_SIZES["b2b"][idx]):
+        out.append(("b2b", gen.random_cfg(rng, alg=algs[i % 3], family="b2b"), {}))
     rng = random.Random(f"tier-{seed}")
     for i in range(TIER_SIZES["tier"][idx]):
         out.append(("tier", gen.random_cfg(rng, alg=algs[i % 3], family="tier"), {}))
